@@ -56,6 +56,7 @@ PRESTATES = {"script": ["absent", "older"], "code": ["absent", "foreign"]}
 _RIG = None
 _PRISTINE = None  # filled in the parent, inherited by the workers
 _LOGS = None
+_PREP_VIOLS = []
 _LIVE = None
 _QUICK_STRIDE = 1
 
@@ -138,6 +139,11 @@ def prepare():
             if st["log"] is None or st["rc"] != 0:
                 raise common.ToolError(f"fault-free recording run failed for {entry}/{pre}: {st}")
             if not any(k == "write" for k, _n, _s in st["log"]):
+                if pre == "older":
+                    # the entry is 2 logical ticks (1/8 s) OLDER than its source and was not rewritten: the
+                    # implementation took a stale entry for a fresh one (that is the property, not a tool fault)
+                    _PREP_VIOLS.append({"key": f"stale-entry-not-rebuilt:{entry}:entry-older-than-source", "clause": "cached-run-equals-uncached-run", "case": {"part": 2, "entry": entry, "prestate": pre, "entry_tick": SRC_TICK - 2, "source_tick": SRC_TICK, "tick_seconds": core.TICK_NS / 1e9}, "observed": {"oplog": [list(x) for x in st["log"]], "stdout": st.get("stdout")}, "expected": "an entry older than its source is recompiled and rewritten"})
+                    continue
                 raise common.ToolError(f"no cache write recorded for {entry}/{pre}: {st['log']}")
             logs[(entry, pre)] = st["log"]
     _LOGS = logs
@@ -514,13 +520,17 @@ def _items(ctx):
         items += [(entry, "dir", None), (entry, "unreadable", None)]
         items += [(entry, "flip", b) for b in flip_bits(entry, ctx.thorough)]
         for pre in PRESTATES[entry]:
+            if (entry, pre) not in _LOGS:
+                continue  # reported by prepare() (see _PREP_VIOLS)
             for f in crashx.fault_cases(_LOGS[(entry, pre)], all_tears=ctx.thorough):
                 items.append((entry, "fault", [pre, list(f)]))
     return items
 
 
 def run_part(ctx):
+    del _PREP_VIOLS[:]
     prepare()
+    ctx.add_violations(list(_PREP_VIOLS))
     items = _items(ctx)
     ctx.log(f"part 2: {len(items)} corruption / fault cases; entry sizes { {k: len(v) for k, v in _PRISTINE.items()} }; op logs { {f'{e}/{p}': [x[0] for x in l] for (e, p), l in _LOGS.items()} }")
     res = common.pmap(_run_item, items, ctx.jobs, chunk=8, seed=ctx.seed)
